@@ -21,7 +21,7 @@ from harness import depthcommon
 PROP = 'C12'
 
 
-def body(ctx, conv, nk, positive, order, dpos, two_depths, via, holes, zdtype=None):
+def body(ctx, conv, nk, positive, order, dpos, two_depths, via, holes, zdtype=None, marker=None):
     from emsarray.operations import depth as depth_ops
     nloc = 2
     # horizontal layout per convention
@@ -97,7 +97,8 @@ def body(ctx, conv, nk, positive, order, dpos, two_depths, via, holes, zdtype=No
     for n, idx in enumerate(numpy.ndindex(*eta.shape)):
         eta[idx] = ctx.real(f'eta{n}', nan=True, hint=5.0 + n)
     variables['eta'] = (('t',) + tuple(sdims), eta)
-    coords = {'zc': (('k',), z, {'positive': positive, 'long_name': 'depth'}),
+    # (marker: the only attribute that says "depth coordinate" - one of the documented ones; the sign is then guessed)
+    coords = {'zc': (('k',), z, dict(marker) if marker else {'positive': positive, 'long_name': 'depth'}),
               'time': (('t',), numpy.array([0.0, 1.0]), {'long_name': 'time'})}
     if via == 'convention':
         # decoded time coordinate, as xarray hands it over (Convention.time_coordinate looks for exactly this)
@@ -234,6 +235,11 @@ def cases(tier):
             yield Case(f'plain:{positive}:{order}:dpos0:nk3:two0:holes0:{zdtype}-depths', body,
                        dict(conv='plain', nk=3, positive=positive, order=order, dpos=0, two_depths=False, via='function', holes=False, zdtype=zdtype),
                        patches=depthcommon.patches, max_paths=20000, split=16)
+    for k, marker in enumerate(({'coordinate_type': 'Z'}, {'axis': 'Z'}, {'standard_name': 'depth'}, {'cartesian_axis': 'Z'})):
+        conv = ('cf1d', 'ugrid')[k % 2]
+        yield Case(f'{conv}:down:shallow_first:dpos0:nk3:two0:holes0:convention:marker-{list(marker)[0]}', body,
+                   dict(conv=conv, nk=3, positive='down', order='shallow_first', dpos=0, two_depths=False, via='convention', holes=False,
+                        zdtype='float64', marker=marker), patches=depthcommon.patches, max_paths=20000, split=16)
     for conv, two, positive in (('cf1d', True, 'down'), ('ugrid', 'same_dim', 'up'), ('ugrid', True, 'up'), ('cf1d', False, 'up')):
         # (SHOC conventions look their depth coordinates up by their fixed names: not exercised through the alias here)
         if q and two == 'same_dim':
